@@ -237,6 +237,11 @@ pub fn gen(tier: &str, rng: &mut Rng, out: &mut Vec<String>) {
         out.push(format!("c16.num {} 0", v)); out.push(format!("c16.num {} 1", v));
     }
     for _ in 0..(if thorough { 20_000 } else { 1_500 }) { out.push(format!("c16.num {} {}", i32_pool(rng), rng.below(2))); }
+    // integer literals of the script sources (and their neighbours) as pushed numbers, both signs, and as push lengths
+    for v in crate::harvest::ints(&["script/mod.rs", "script/stack.rs", "transaction/p2pkh.rs"], 1 << 31) {
+        out.push(format!("c16.num {} 0", v)); out.push(format!("c16.num -{} 1", v));
+        if v <= 70_000 { out.push(format!("c16.push {} 0", data_spec(rng, v as usize))); }
+    }
     // lock scripts
     for k in 0..(if thorough { 5_000 } else { 400 }) {
         let h = match k { 0 => vec![0u8; 20], 1 => vec![0xff; 20], 2 => vec![0x88; 20], 3 => vec![0xac; 20], _ => rng.bytes(20) };
